@@ -482,7 +482,10 @@ pub fn encode_with_dist_header_multi(terms: &[&OwnedTerm]) -> Result<Vec<u8>, En
 
     let long_atoms = atoms.iter().any(|a| a.name.len() > 255);
     if long_atoms {
-        buf[flags_start_pos + flags_len - 1] |= 0x01;
+        // the LongAtoms bit lives in the half byte that follows the last reference's flags:
+        // the low half of the last byte for an even count, the high half for an odd count
+        let shift = if atoms.len() % 2 == 0 { 0 } else { 4 };
+        buf[flags_start_pos + flags_len - 1] |= 0x01 << shift;
     }
 
     for (index, atom) in atoms.iter().enumerate() {
